@@ -18,8 +18,7 @@ struct Meas { std::map<std::string, size_t> hw; };      // function -> max high-
 
 // paints the stack below its own frame; everything the following call touches lies below the returned address
 static __attribute__((noinline)) volatile uint8_t *paint_below() {
-    volatile uint8_t marker = 0;
-    volatile uint8_t *hi = &marker - 96;
+    volatile uint8_t *hi = (volatile uint8_t *)__builtin_frame_address(0) - 192;    // below this function's own frame
     volatile uint8_t *lo = hi - PAINT;
     for (volatile uint8_t *q = lo; q < hi; q++) *q = PAT;
     return hi;
